@@ -417,9 +417,18 @@ func TestVerifC31(t *testing.T) {
 		}
 	}()
 
-	nRT := vcommon.Scale(400, 16000)
-	nMal := vcommon.Scale(600, 24000)
+	nRT := vcommon.Scale(240, 9600)
+	nMal := vcommon.Scale(100, 4000)
 	r.Cases(nRT+nMal, func(i int, rng *rand.Rand) {
+		defer func() {
+			// a panic escaping a case (pebble code on a VALID batch, or a harness bug)
+			// must not silently drop the remaining cases
+			if rec := recover(); rec != nil {
+				buf := make([]byte, 8<<10)
+				buf = buf[:runtime.Stack(buf, false)]
+				r.Violate("case-panic", fmt.Sprintf("case %d panicked: %s", i, panicPrefix(rec)), map[string]any{"stack": string(buf)}, map[string]any{"api": "case", "panic": panicPrefix(rec)})
+			}
+		}()
 		if i < nRT {
 			s.roundTrip(i, rng)
 		} else {
@@ -590,6 +599,12 @@ func (s *state) reopen() {
 
 // decodePanic records a panic/fatal raised by a decoding API.
 func (s *state) decodePanic(api, pmsg string, input []byte, stack string) {
+	if strings.Contains(stack, "internal/base.AssertionFailedf") {
+		// base.AssertionFailedf panics only in invariants builds (this one); a
+		// production build returns the same error to the caller.
+		s.r.Count("assertion_error_(panics_only_under_invariants):"+api, 1)
+		return
+	}
 	key := api + "|" + pmsg
 	s.seen[key]++
 	s.r.Count("decode_panics_total", 1)
@@ -1085,7 +1100,9 @@ func (s *state) drive(data []byte, j int, label string) {
 	// is turned into a flushable batch by DB.Apply, which fragments (= decodes)
 	// its range keys and is therefore expected to reject a malformed range-key
 	// value with an error. A store with a 4 KB memtable makes ~2 KB batches large.
-	if an.decodes && an.spansOK && an.rkValueBad && cls == "" && an.memSize >= tinyMemTable {
+	if an.decodes && an.spansOK && an.rkValueBad && cls == "" && an.memSize >= tinyMemTable && s.killed["rangekey-value"] >= 3 {
+		r.Count("db_apply_skipped_after_3_panics:rangekey-value", 1)
+	} else if an.decodes && an.spansOK && an.rkValueBad && cls == "" && an.memSize >= tinyMemTable {
 		if s.tiny == nil {
 			s.tiny = openStoreSized(s.t, tinyMemTable)
 		}
@@ -1102,6 +1119,7 @@ func (s *state) drive(data []byte, j int, label string) {
 		})
 		if pan {
 			s.decodePanic(api, p, data, st)
+			s.killed["rangekey-value"]++
 		} else {
 			outcome(api, derr)
 		}
@@ -1201,7 +1219,7 @@ func TestVerifC31WAL(t *testing.T) {
 	r.Assume("records that decode completely but describe semantically invalid spans (start >= end, undecodable range-key value) or empty user keys are skipped: reachable through the typed API, caller error / unrelated flush-time assertion")
 	tmpl := makeTemplate(t)
 	seen := map[string]int{}
-	n := vcommon.Scale(44, 1760)
+	n := vcommon.Scale(20, 800)
 	r.Cases(n, func(i int, rng *rand.Rand) {
 		label, inputs := genMalformed(rng)
 		r.SetAdd("malformed_generators", label)
@@ -1247,7 +1265,9 @@ func TestVerifC31WAL(t *testing.T) {
 			})
 			r.Eval(1)
 			r.Count("opens", 1)
-			if pan {
+			if pan && strings.Contains(st, "internal/base.AssertionFailedf") {
+				r.Count("assertion_error_(panics_only_under_invariants):Open", 1)
+			} else if pan {
 				key := "Open(WAL replay)|" + p
 				seen[key]++
 				r.Count("decode_panics_total", 1)
